@@ -80,8 +80,12 @@ PROPS = {
                  "offset, Null vs missing cell). non-trivial = carries a payload (not Null/Marker/NA/Remove/Bool) or has more "
                  "than one node; distinct = distinct structural fingerprints, merged exactly across shards"),
         "assumptions": [WELLFORMED, "NaN payload bits are one class", "absent and empty grid/column meta are the same value",
-                        "chrono-tz is the trusted zone database"],
-        "require_strata": {"both": ["grid:meta", "grid:colmeta", "grid:zero-rows", "grid:missing-cell", "grid:null-cell", "num:nan",
+                        "chrono-tz is the trusted zone database",
+                        "'at any nesting depth' is read as: up to the depth the decoders document. Both decoders refuse deeper input instead of "
+                        "exhausting the native stack (Zinc: 128 nested containers since fix 6d43cc0; serde_json: 128 JSON levels, i.e. 42 nested grids); "
+                        "the deep-chain stream round-trips chains of every container kind at depths 1..127 (Hayson: as far as 127 JSON levels reach), "
+                        "so a lowered limit is reported"],
+        "require_strata": {"both": ["deep-chain:mixed", "deep-chain:grid", "grid:meta", "grid:colmeta", "grid:zero-rows", "grid:missing-cell", "grid:null-cell", "num:nan",
                                     "num:inf", "num:neg0", "num:subnormal", "num:unit", "str:astral", "str:control", "str:quote",
                                     "str:backslash", "str:dollar", "dt:zone", "ref:dis", "xstr", "coord", "symbol", "uri"]},
         "min_evals": {"quick": 50_000, "thorough": 1_000_000},
@@ -95,8 +99,9 @@ PROPS = {
                  "model with absent == empty grid meta. non-trivial / distinct as in C01"),
         "assumptions": [WELLFORMED, "NaN payload bits are one class", "absent and empty grid/column meta are the same value",
                         "'ver' is the reserved version tag of grid meta, not generated as a user meta tag",
-                        "chrono-tz is the trusted zone database"],
-        "require_strata": {"both": ["grid:meta", "grid:colmeta", "grid:zero-rows", "grid:missing-cell", "grid:null-cell", "num:nan",
+                        "chrono-tz is the trusted zone database",
+                        "nesting depth as in C01: serde_json refuses more than 128 JSON levels; the deep-chain stream covers every depth below that"],
+        "require_strata": {"both": ["deep-chain:mixed", "deep-chain:grid", "grid:meta", "grid:colmeta", "grid:zero-rows", "grid:missing-cell", "grid:null-cell", "num:nan",
                                     "num:inf", "num:neg0", "num:subnormal", "num:unit", "num:int>=2^63", "str:astral", "str:control",
                                     "dt:zone", "ref:dis", "typed-impl", "entry:to_string x from_str".replace(" x ", "x"),
                                     "entry:to_valuexfrom_value", "entry:to_vecxfrom_slice", "entry:to_writerxfrom_reader", "entry:to_stringxfrom_reader"]},
